@@ -1162,3 +1162,108 @@ func (p *Program) ResolveAlong(pr Prov, stack []ssa.CallInstruction) Prov {
 	}
 	return cur
 }
+
+// ---------- field-write summaries (E7) ----------
+
+type fwKey struct {
+	fn    *ssa.Function
+	idx   int
+	field string
+}
+
+var fwMemo = map[fwKey]int{} // 0 unknown, 1 busy, 2 no, 3 yes
+
+// MayWriteField: may fn (transitively) assign field `field` of the struct its parameter idx points to?
+func (p *Program) MayWriteField(fn *ssa.Function, idx int, field string) bool {
+	k := fwKey{fn, idx, field}
+	switch fwMemo[k] {
+	case 1, 2:
+		return false
+	case 3:
+		return true
+	}
+	fwMemo[k] = 1
+	res := false
+	if fn.Blocks != nil && idx < len(fn.Params) {
+		// values derived from the parameter (pointer copies, phis)
+		derived := map[ssa.Value]bool{fn.Params[idx]: true}
+		changed := true
+		for changed {
+			changed = false
+			for _, b := range fn.Blocks {
+				for _, in := range b.Instrs {
+					switch x := in.(type) {
+					case *ssa.Phi:
+						for _, e := range x.Edges {
+							if derived[e] && !derived[x] {
+								derived[x] = true
+								changed = true
+							}
+						}
+					case *ssa.ChangeType:
+						if derived[x.X] && !derived[x] {
+							derived[x] = true
+							changed = true
+						}
+					case *ssa.UnOp:
+						// load of a spilled pointer parameter
+						if x.Op == token.MUL {
+							if al, ok := x.X.(*ssa.Alloc); ok {
+								for _, r := range *al.Referrers() {
+									if st, ok := r.(*ssa.Store); ok && st.Addr == al && derived[st.Val] && !derived[x] {
+										derived[x] = true
+										changed = true
+									}
+								}
+							}
+						}
+					}
+				}
+			}
+		}
+		for _, b := range fn.Blocks {
+			for _, in := range b.Instrs {
+				switch x := in.(type) {
+				case *ssa.Store:
+					if fa, ok := x.Addr.(*ssa.FieldAddr); ok && derived[fa.X] && fieldName(fa.X.Type(), fa.Field) == field {
+						res = true
+					}
+				case ssa.CallInstruction:
+					c := x.Common()
+					var actuals []ssa.Value
+					if c.IsInvoke() {
+						actuals = append(actuals, c.Value)
+					}
+					actuals = append(actuals, c.Args...)
+					for i, a := range actuals {
+						if !derived[a] {
+							continue
+						}
+						for _, cal := range p.Callees(x) {
+							if p.MayWriteField(cal, i, field) {
+								res = true
+							}
+						}
+					}
+				}
+			}
+		}
+	}
+	if res {
+		fwMemo[k] = 3
+	} else {
+		fwMemo[k] = 2
+	}
+	return res
+}
+
+// InCycle reports whether block b lies on a CFG cycle.
+func InCycle(b *ssa.BasicBlock) bool { return reachFrom(b, nil, false)[b] }
+
+// SameLoop: blocks a and b are in the same strongly connected component.
+func SameLoop(a, b *ssa.BasicBlock) bool {
+	if a == b {
+		return InCycle(a)
+	}
+	return reachFrom(a, nil, false)[b] && reachFrom(b, nil, false)[a]
+}
